@@ -2,5 +2,5 @@
 From Burrow Require Import EvalLoop.
 Require Import ExtrOcamlBasic.
 Extraction "model.ml"
-  step_i step_s init_state feed settle groups_of_list groups_to_list phase_num configure_min configure_mod zk_session refresh_events
+  step_i step_s init_state feed settle groups_of_list groups_to_list phase_num configure_min configure_mod configure zk_session refresh_events
   Nat.add. (* Nat.add only so that the shared Vutil glue finds type nat *)
